@@ -15,12 +15,16 @@ REPL_PROPS = "TwoBecomeOne OnlyFromBoth ContentAsNamed UnequalSizesErr CoolOnce"
 SA_PROPS = "SurvivorOnly Metropolis CoolOnce BestApart"
 
 # rank -> objective value tables used when TLC-enumerated cases are replayed (ranks 0..5):
-# all positive / mixed with zero / all negative / non-positive ending in zero
+# all positive / mixed with zero / all negative / negative up to zero, then positive.
+# The model's universes tie distinct individuals at rank 1 (tags 2 and 3), so that is where the value zero sits:
+# "+-0.0" = the number zero, carried as +0.0 by odd tags and as -0.0 by even tags, "-+0.0" the other way round
+# (harness/src/problems_ops.rs): equal as numbers, different bit patterns, one rank -- a tie for every operator,
+# enumerated by TLC in both parent / offspring arrangements.
 VALUE_MAPS = [
     ["1.0", "2.5", "4.0", "7.0", "11.0", "16.5"],
-    ["-3.0", "0.0", "2.0", "5.5", "8.0", "13.0"],
+    ["-3.0", "+-0.0", "2.0", "5.5", "8.0", "13.0"],
     ["-40.0", "-30.5", "-20.0", "-10.0", "-5.0", "-1.0"],
-    ["-6.5", "-4.0", "-2.0", "-1.0", "-0.5", "0.0"],
+    ["-6.5", "-+0.0", "0.5", "1.0", "2.0", "3.5"],
 ]
 OFFSETS = ["0.1", "0.0", "3.0", "1.0"]
 BASES = ["0.5", "0.9", "0.2"]
